@@ -58,6 +58,24 @@ CLAIMED = {
     design_ref='DESIGN.md section 6 (C19)',
     note="Bounded: statements from the menus of spec/MC_Engine.tla, inputs of at most 3-5 lines over a 5-7 line alphabet, 1-3 files, the table t(k TEXT, v INT) and its NOT NULL / DEFAULT variants. Trusted: TLC, serde_json (decoding printed JSON records), the harness' SQL renderer (harness/src/sql.rs) and value projection (harness/src/val.rs).",
     technique="TLA+ model checking (TLC): operational Engine.tla refines declarative Sem.tla; every behaviour of the bounded model replayed on FileExecutor / ExecutionEngine"),
+ "C12": dict(
+    category="model_checking",
+    text="Reader.tla models the batch driver's line reading (ReadLine / NextFile over bytes: LF, CRLF, final line without newline, empty lines, a byte that is not UTF-8, a 2-byte character) and TLC checks ExactlyOnceInOrder, PrefixAlways, ConcatLaw and NothingLostSilently for every content up to MaxLen bytes and every cut into 1-3 files. Every case is written to real files and read by FileExecutor (SELECT x, COUNT(*), total_lines) and by the join loader, also with runs of 8191/8192/8193 bytes around the BufReader capacity; Engine.tla behaviours over inputs split into up to 3 files are replayed as well.",
+    design_ref="DESIGN.md section 6 (C12)",
+    note="Bounded: contents up to 5 (thorough 6) bytes over 6 symbols. Trusted: TLC, serde_json, std BufRead.",
+    technique="TLA+ model checking (TLC) of the reader state machine + replay of every bounded behaviour on real files"),
+ "C16": dict(
+    category="model_checking",
+    text="Values.tla defines the one total order (Cmp), equality (Eq) and hash class (Canon) C16 demands and the code's as-built comparison (CmpB/EqB/HashKeyB). TLC checks trichotomy, transitivity, equality = order, equal => equal hash and numbers-by-value on all 74 088 triples of a 42-value boundary universe (NULL, integers at 0 and the 64-bit extremes, reals incl. -0.0, infinities, NaN, an INT and a REAL of equal value, texts, nested arrays, instants, intervals). Every ordered pair is executed on the real Value (==, cmp, partial_cmp, <, >, Hash with two hashers) and through every consumer the property names (WHERE, DISTINCT, GROUP BY grouping and order, MIN/MAX, array_unique) via Engine.tla's PairMenu; random wider pairs are validated as a trace by Trace_Values.tla.",
+    design_ref="DESIGN.md section 6 (C16)",
+    note="Bounded universe of 42 values; join lookup is covered through the Eq/Hash contract (HashMap) rather than through a join on every type. Trusted: TLC, std HashMap/BTreeMap honouring Eq/Hash/Ord.",
+    technique="TLA+ model checking (TLC) of order/equality/hash laws over all triples + replay of every pair on the real trait impls and consumers + trace validation of random pairs"),
+ "C17": dict(
+    category="model_checking",
+    text="Printer.tla is the state machine of OutputPrinter::print (state: first_line; steps PrintHeader / PrintRecord / PrintSeparator inside one PrintResult action per call). TLC checks EveryRowOnceInOrder, HeaderOnce and FieldsPerRecord over sequences of print calls (0-3 rows, 1-2 columns, single/multi) in the three formats; every behaviour is executed on the real OutputPrinter with a capturing Printer. JSON records are decoded with serde_json and must have exactly the column names in order and values that recover the row (INT exactly incl. 64-bit extremes, finite REAL exactly, TEXT code point for code point incl. quotes, control and astral characters, arrays); text/CSV lines are compared exactly for delimiter-free values, including the lone-input rule.",
+    design_ref="DESIGN.md section 6 (C17)",
+    note="Lexical escaping of JSON is judged by decoding with serde_json (trusted), not by TLA+. Text/CSV content only for values free of delimiter, quote and line-break characters, as the property states.",
+    technique="TLA+ model checking (TLC) of the printer state machine + replay of every bounded behaviour on the real OutputPrinter"),
 }
 
 TITLES = {}
